@@ -1,0 +1,112 @@
+//go:build verif
+
+package mempool
+
+import (
+	"sync"
+
+	"github.com/33cn/chain33/types"
+)
+
+// VerifSnapshot is the pool's internal bookkeeping as it is under proxyMtx
+// (verification builds only).
+type VerifSnapshot struct {
+	Seq       int64               // per-pool sequence number of the event, assigned under proxyMtx
+	Queue     [][]byte            // hashes of the queued items in walk order
+	Accounts  map[string][][]byte // per-sender index: address -> hashes in index order
+	Latest    [][]byte            // latest-transactions list
+	Short     map[string][]byte   // short hash -> hash of the transaction stored under it
+	TotalFee  int64               // txCache.totalFee
+	Bytes     int64               // queue cache byte counter
+	SumFee    int64               // sum of Fee over the queued items
+	SumBytes  int64               // sum of types.Size over the queued items
+	Height    int64               // header the pool works with
+	BlockTime int64
+}
+
+// VerifEvent is one mutation of the pool, reported under proxyMtx after the change.
+type VerifEvent struct {
+	Kind   string // push | remove | rmblock | sweep
+	Tx     *types.Transaction
+	Block  *types.Block
+	Hashes [][]byte
+	Err    error
+	Snap   *VerifSnapshot
+}
+
+var (
+	verifHooks sync.Map // *Mempool -> func(*VerifEvent)
+	verifSeqs  sync.Map // *Mempool -> *int64
+)
+
+// VerifSetHook installs (or with nil removes) the observer of this pool's mutations.
+func (mem *Mempool) VerifSetHook(h func(ev *VerifEvent)) {
+	if h == nil {
+		verifHooks.Delete(mem)
+		return
+	}
+	verifHooks.Store(mem, h)
+}
+
+// verifEvent is called with proxyMtx held, after the mutation.
+func (mem *Mempool) verifEvent(kind string, tx *types.Transaction, block *types.Block, hashes [][]byte, err error) {
+	h, ok := verifHooks.Load(mem)
+	if !ok {
+		return
+	}
+	p, _ := verifSeqs.LoadOrStore(mem, new(int64))
+	seq := p.(*int64)
+	*seq++
+	snap := mem.verifSnapshotLocked()
+	snap.Seq = *seq
+	h.(func(*VerifEvent))(&VerifEvent{Kind: kind, Tx: tx, Block: block, Hashes: hashes, Err: err, Snap: snap})
+}
+
+func (mem *Mempool) verifSnapshotLocked() *VerifSnapshot {
+	s := &VerifSnapshot{Accounts: map[string][][]byte{}, Short: map[string][]byte{}}
+	c := mem.cache
+	if c.qcache != nil {
+		c.qcache.Walk(0, func(it *Item) bool {
+			s.Queue = append(s.Queue, it.Value.Hash())
+			s.SumFee += it.Value.Fee
+			s.SumBytes += int64(types.Size(it.Value))
+			return true
+		})
+		s.Bytes = c.qcache.GetCacheBytes()
+	}
+	for addr, lm := range c.AccountTxIndex.accMap {
+		var hs [][]byte
+		lm.Walk(func(v interface{}) bool {
+			hs = append(hs, v.(*types.Transaction).Hash())
+			return true
+		})
+		s.Accounts[addr] = hs
+	}
+	c.LastTxCache.l.Walk(func(v interface{}) bool {
+		s.Latest = append(s.Latest, v.(*types.Transaction).Hash())
+		return true
+	})
+	c.SHashTxCache.l.Walk(func(v interface{}) bool {
+		h := v.(*types.Transaction).Hash()
+		s.Short[types.CalcTxShortHash(h)] = h
+		return true
+	})
+	s.TotalFee = c.TotalFee()
+	if mem.header != nil {
+		s.Height = mem.header.GetHeight()
+		s.BlockTime = mem.header.GetBlockTime()
+	}
+	return s
+}
+
+// VerifSnapshot takes proxyMtx and returns the bookkeeping.
+func (mem *Mempool) VerifSnapshot() *VerifSnapshot {
+	mem.proxyMtx.Lock()
+	defer mem.proxyMtx.Unlock()
+	return mem.verifSnapshotLocked()
+}
+
+// VerifSweep runs the expiry sweep the one-minute ticker runs.
+func (mem *Mempool) VerifSweep() {
+	mem.removeExpired()
+}
